@@ -78,6 +78,9 @@ _pristine = listkit.Pristine()
 def units(tier):
     us = []
     for key, path, size in listkit.shipped():
+        # every cell of every table, one call per table: on every shipped listing in both tiers (cheap, and the big
+        # files hold the rows that are printed more than once with different values)
+        us.append((key, 'cells'))
         if tier == 'quick' and size >= 300000:
             continue
         for part in PARTS:
@@ -413,6 +416,42 @@ def calls_starts(ctx):
         for g in groups:
             for sh in shorts(ctx):
                 yield {'selection': [one(t) for t in g], 'form': 'list', 'short': sh, 'start': start}
+    for c in calls_datetimes(ctx):
+        yield c
+
+
+START_DATETIMES = ['1955-01-01T00:00:00', '1999-12-31T23:59:58.750001']
+
+
+def calls_datetimes(ctx):
+    """start_datetime (documented keyword: times are returned as datetimes): a whole-second start and one carrying
+    microseconds x each table singly and all tables together (x short on/off)."""
+    import datetime
+    names = ctx.tablenames
+    groups = [[t] for t in names] + ([list(names)] if len(names) >= 2 else [])
+    for sd in START_DATETIMES:
+        # a listing whose times (steady-state runs reach 1e15 s) carry the start beyond year 9999 cannot have its
+        # times expressed as datetimes at all: failing loudly is all that can be asked - outside the space
+        try:
+            for st in ctx.scan.sets:
+                datetime.datetime.fromisoformat(sd) + datetime.timedelta(seconds=st.time)
+        except OverflowError:
+            continue
+        for g in groups:
+            for sh in shorts(ctx):
+                yield {'selection': [(SPEC[t], mid_key(ctx.tables[t]), ctx.tables[t]['cols'][-1]) for t in g],
+                       'form': 'tuple' if len(g) == 1 else 'list', 'short': sh, 'start': 0, 'start_datetime': sd}
+
+
+def calls_cells(ctx):
+    """Every cell of every table: per table one call with every row (by integer index; rows whose name is printed
+    for several rows excepted) x every column."""
+    for t in ctx.tablenames:
+        tb = ctx.tables[t]
+        rows = [r for r in range(len(tb['rows'])) if tb['rows'][r] not in tb['dups']]
+        sel = [(SPEC[t], r, c) for r in rows for c in tb['cols']]
+        for sh in shorts(ctx):
+            yield {'selection': sel, 'form': 'list', 'short': sh, 'start': 0}
 
 
 def sequence_selections(ctx):
@@ -452,7 +491,7 @@ def calls_sequences3(ctx):
     return calls_sequences(ctx, 3)
 
 
-FAMILY = {'subsets': calls_subsets, 'items': calls_items, 'starts': calls_starts, 'sequences': calls_sequences,
+FAMILY = {'cells': calls_cells, 'subsets': calls_subsets, 'items': calls_items, 'starts': calls_starts, 'sequences': calls_sequences,
           'sequences3': calls_sequences3}
 ORDINAL = {2: 'second-call', 3: 'third-call'}
 
@@ -465,7 +504,7 @@ def to_json(case, key):
     if 'sequence' in case:
         return {'file': key, 'sequence': [to_json(c, key) for c in case['sequence']]}
     return {'file': key, 'selection': [[s, k(r), c] for s, r, c in case['selection']], 'form': case['form'],
-            'short': case['short'], 'start': case['start']}
+            'short': case['short'], 'start': case['start'], 'start_datetime': case.get('start_datetime')}
 
 
 def from_json(case):
@@ -474,7 +513,7 @@ def from_json(case):
     if 'sequence' in case:
         return {'sequence': [from_json(c) for c in case['sequence']]}
     return {'selection': [(s, k(r), c) for s, r, c in case['selection']], 'form': case['form'],
-            'short': case['short'], 'start': case['start']}
+            'short': case['short'], 'start': case['start'], 'start_datetime': case.get('start_datetime')}
 
 
 def same(a, b):
@@ -501,6 +540,11 @@ def eval_call(ctx, case, lst):
     pre = listkit.observe(lst, names=True)
     arg = sel[0] if case['form'] == 'tuple' else list(sel)
     kwargs = {} if case['short'] is None else {'short': case['short']}
+    sd = None
+    if case.get('start_datetime'):
+        import datetime
+        sd = datetime.datetime.fromisoformat(case['start_datetime'])
+        kwargs['start_datetime'] = sd
     desc = 'history(%r%s) on %s from index %d' % (arg if len(sel) <= 6 else arg[:6] + ['...%d items' % len(sel)],
                                                   ''.join(', %s=%r' % kv for kv in kwargs.items()), ctx.key, case['start'])
     lst._file.arm()
@@ -564,7 +608,18 @@ def eval_call(ctx, case, lst):
                         '%s: item %r differs from stepping at %d of %d result sets, first at position %d: history %r, '
                         'table %r' % (desc, it, len(bad), len(ve), i, vg[i], ve[i])))
             break
-        if len(tg) != len(te) or any(not same(a, b) for a, b in zip(tg, te)):
+        if sd is not None:
+            # documented: times come back as datetimes, start + t seconds (to the microsecond a datetime holds)
+            import datetime
+            te = [sd + datetime.timedelta(seconds=t) for t in te]
+            one_us = datetime.timedelta(microseconds=1)
+            okt = len(tg) == len(te) and all(isinstance(a, datetime.datetime) and abs(a - b) <= one_us for a, b in zip(tg, te))
+            if not okt:
+                out.append(('C06|history|datetimes-differ|%s' % cls,
+                            '%s: item %r is paired with %r..., start_datetime + the result times is %r...'
+                            % (desc, it, tg[:3], te[:3])))
+                break
+        elif len(tg) != len(te) or any(not same(a, b) for a, b in zip(tg, te)):
             out.append(('C06|history|times-differ|%s' % cls,
                         '%s: item %r is paired with times %r..., the result sets visited have %r...'
                         % (desc, it, tg[:4], te[:4])))
@@ -645,7 +700,7 @@ def _run_unit(unit, tier, rec):
     key, part = unit
     ctx = FileCtx(key)
     if ctx.problems:
-        if part == PARTS[0]:
+        if part == 'cells':
             for sig, what in ctx.problems:
                 rec.violation(sig, what, {'file': key, 'stepping': True})
         rec.case((key, 'stepping'), nontrivial=False, outcome='stepping-failed')
@@ -678,7 +733,7 @@ def _run_unit(unit, tier, rec):
         if 'sequence' in case or len(case['selection']) > 1:
             rec.sample({'file': key, 'call': js, 'outcome': outcome})
     rec.count('calls_%s' % part, ncalls)
-    if part == PARTS[0]:
+    if part == 'cells':
         rec.count('files', 1)
         rec.count('result_sets_stepped', ctx.n)
         rec.count('files_with_short_output', 1 if ctx.has_short else 0)
